@@ -65,6 +65,10 @@ struct LoopCfg {
 	/// with index_loop: `for PAT in X` over an owned Vec `X` whose elements the body moves out: bound as `let PAT = vf_clone(&X[i]);`
 	#[serde(default)]
 	by_clone: bool,
+	/// with index_loop: `for PAT in ITER` over an iterator expression (prelude VIter): `let vx_vN = ITER.collect();` then an
+	/// index loop binding `let PAT = vf_clone(&vx_vN[i]);`
+	#[serde(default)]
+	collect: bool,
 	/// do not fail (exit 2) when the function no longer has this loop
 	#[serde(default)]
 	optional: bool,
@@ -797,6 +801,32 @@ impl<'ast, 'c> Visit<'ast> for FnVisitor<'c> {
 				self.push(bs + 1, bs + 1, vec![
 					Part::Text("\nlet ".to_string()), Part::Src(ps, pe),
 					Part::Text(format!(" = {}; {} = {} + 1;\n", iv, iv, iv)),
+				], "L20");
+				self.push(we, we, vec![Part::Text(" }".to_string())], "L20");
+				self.push(we, we, vec![Part::Text(";".to_string())], "A2");
+				syn::visit::visit_expr_for_loop(self, fl);
+				return;
+			}
+			if lc.collect {
+				let (es, ee) = br(fl.expr.span());
+				let (ps, pe) = br(fl.pat.span());
+				let iv = format!("vx_i{}", ord);
+				let vv = format!("vx_v{}", ord);
+				self.push(ws, bs, vec![
+					Part::Text(format!("let {} = ", vv)), Part::Src(es, ee),
+					Part::Text(format!(".collect(); {{ let mut {}: usize = 0;\nwhile {} < {}.len()\n", iv, iv, vv)),
+				], "L20");
+				let mut parts = self.clause_parts("invariant_except_break", "invariant", &lc.invariant_except_break, "        ");
+				let mut inv = vec![Clause::Plain(format!("{} <= {}.len()", iv, vv))];
+				inv.extend(lc.invariant.iter().cloned());
+				parts.extend(self.clause_parts("invariant", "invariant", &inv, "        "));
+				parts.extend(self.clause_parts("ensures", "invariant", &lc.ensures, "        "));
+				let d = lc.decreases.clone().unwrap_or(format!("{}.len() - {}", vv, iv));
+				parts.push(Part::Text(format!("\n        decreases {},\n    ", d)));
+				self.push(bs, bs, parts, "A2");
+				self.push(bs + 1, bs + 1, vec![
+					Part::Text("\nlet ".to_string()), Part::Src(ps, pe),
+					Part::Text(format!(" = vf_clone(&{}[{}]); {} = {} + 1;\n", vv, iv, iv, iv)),
 				], "L20");
 				self.push(we, we, vec![Part::Text(" }".to_string())], "L20");
 				self.push(we, we, vec![Part::Text(";".to_string())], "A2");
